@@ -487,6 +487,9 @@ def run_history(mode, flags, W, tag, default_outdir=False):
     if not os.path.exists(src):
         if mode == "TAN":
             mk_fits(src, 300, 300, 0.001)
+        elif mode == "TANS":
+            # fits in one tile: recorded as a SkyImage with TileLevels 0, not as a Tan pyramid
+            mk_fits(src, 100, 80, 0.001)
         else:
             mk_fits(src, 64, 48, 0.3)
     out_dir = os.path.join(W, f"h_{mode}_{tag}")
@@ -495,11 +498,11 @@ def run_history(mode, flags, W, tag, default_outdir=False):
         src2 = os.path.join(W, f"hd_{mode}_{tag}.fits")
         shutil.copyfile(src, src2)
         src = src2
-        out_dir = src2[:-len(".fits")] + "_tiled" + ("_TOAST" if mode != "TAN" else "")
+        out_dir = src2[:-len(".fits")] + "_tiled" + ("_TOAST" if not mode.startswith("TAN") else "")
     shutil.rmtree(out_dir, ignore_errors=True)
     pb = Builder(PyramidIO(out_dir + "_none", default_format="fits"))
     pristine = describe(pb.imgset, pb.place)["astro"]
-    method = TilingMethod.TAN if mode == "TAN" else TilingMethod.TOAST
+    method = TilingMethod.TAN if mode.startswith("TAN") else TilingMethod.TOAST
     rets = []
     orig = fits_tiler.FitsTiler.tile
 
@@ -630,7 +633,7 @@ def run(ctx, V):
     hists = []
     tan_h = all_histories(3)
     toast_h = all_histories(2 if tier == "quick" else 3)
-    plan = [("TAN", h) for h in tan_h] + [("TOAST", h) for h in toast_h]
+    plan = [("TAN", h) for h in tan_h] + [("TOAST", h) for h in toast_h] + [("TANS", h) for h in all_histories(2)]
     if rep_case.get("part") == "history":
         plan.insert(0, (rep_case["mode"], list(rep_case["history"])))
     for mode, h in plan:
